@@ -500,7 +500,8 @@ def _has_dup(p):
 # the source configuration the translator read (names of Model/ParamSpace.v cfg fields); a recorded defect that the
 # source no longer has is never used to explain a violation
 FLAGS = dict(name_fallback_full=False, name_stage3=False, custom_dims_distinct=False, custom_range_optional=False,
-             dask_custom_positional=False, dask_custom_scalar_is_placeholder=False)
+             dask_custom_positional=False, dask_custom_scalar_is_placeholder=False, dask_product_dedup=False,
+             dask_sequential_rows=False)
 
 
 def set_flags(gen_text: str):
@@ -543,7 +544,7 @@ def classify(c, o, explained=True):
             return "dim_name_undefined_raises"
         if collide and (c["mode"] == "product" or dask):
             return "dim_name_collision_raises"
-        if dask and c["mode"] == "product" and any(_has_dup(p) for p in en):
+        if dask and c["mode"] == "product" and any(_has_dup(p) for p in en) and not FLAGS["dask_product_dedup"]:
             return "dask_product_duplicate_values_raises"
         if dask and c["mode"] == "custom" and c["range"] and c["range"][0] > 0 and not FLAGS["dask_custom_positional"]:
             return "dask_custom_column_offset_raises"
@@ -552,7 +553,7 @@ def classify(c, o, explained=True):
         return "raises_on_valid_request"
     if collide and c["mode"] != "product" and not dask:
         return "dim_name_collision_silent"
-    if dask and c["mode"] == "sequential" and len(en) >= 2:
+    if dask and c["mode"] == "sequential" and len(en) >= 2 and not FLAGS["dask_sequential_rows"]:
         return "dask_sequential_zips"
     if dask and c["mode"] == "custom" and any(p["kind"] == "unders" and p["n"] == 1 for p in en) \
             and not FLAGS["dask_custom_scalar_is_placeholder"]:
